@@ -405,15 +405,48 @@ class Executor:
         return [self.res(st, SGen(e, None))]
 
     def ev_ListComp(self, e, st):
-        if len(e.generators) != 1 or e.generators[0].ifs:
-            raise Unsupported("comprehension with filters / nesting")
+        if len(e.generators) != 1:
+            raise Unsupported("nested comprehension")
         g = e.generators[0]
+        if g.ifs:
+            return self._filtered_comp(e, g, st)
         out = []
         for r in self.ev(g.iter, st):
             if r.exc is not None:
                 out.append(r)
                 continue
             out += self.map_seq(r.st, r.v, g.target, e.elt)
+        return out
+
+    def _filtered_comp(self, e, g, st):
+        """[elt for target in <concrete sequence> if cond...]: every condition must evaluate to a constant per element"""
+        out = []
+        for r in self.ev(g.iter, st):
+            if r.exc is not None:
+                out.append(r)
+                continue
+            items = self.concrete_items(r.st, r.v)
+            if items is None:
+                raise Unsupported("filtered comprehension over a symbolic sequence")
+            s1 = r.st
+            vals = []
+            for it in items:
+                self.bind_target(g.target, it, s1)
+                keep = True
+                for cond in g.ifs:
+                    rs = self.ev(cond, s1)
+                    if len(rs) != 1 or rs[0].exc is not None:
+                        raise Unsupported("filter of a comprehension forks")
+                    b = const_bool(self.truth(rs[0].v, rs[0].st))
+                    if b is None:
+                        raise Unsupported("filter of a comprehension is not constant")
+                    keep = keep and b
+                if keep:
+                    rs = self.ev(e.elt, s1)
+                    if len(rs) != 1 or rs[0].exc is not None:
+                        raise Unsupported("element of a filtered comprehension forks")
+                    vals.append(rs[0].v)
+            out.append(self.res(s1, s1.alloc(HList(vals))))
         return out
 
     def map_seq(self, st, seqv, target, elt):
